@@ -233,7 +233,7 @@ def run_cfg(chk, facts, cfg):
         chk.notes.extend(m.problems)
         return
     from ..overrides import obligation as no_overrides
-    no_overrides(chk, PID, facts, sfx, [m.path], 'interval arithmetic')
+    no_overrides(chk, PID, facts, sfx, [m.path], 'interval arithmetic', traits=('Add', 'Sub', 'Mul', 'Div', 'Neg', 'AddAssign', 'SubAssign', 'MulAssign', 'DivAssign'))
     n = 0
     scalar = lambda imp: [t['k'] for t in imp.get('trait_args', [])] == ['param']
     for tr, opname in (('core::ops::Add', 'add'), ('core::ops::Sub', 'sub'), ('core::ops::Mul', 'mul'), ('core::ops::Div', 'div')):
